@@ -257,7 +257,7 @@ def check_module_generic(run, mod, rule, unit):
         ok = got == exp
         n += 1
         mask = "".join("v" if i in vpos else "n" for i in range(len(params)))
-        run.instance(rule, "%s: operator() of %s (mask %s)" % (unit, re.sub(r"yorel::yomm2::", "", cls)[:120], mask), f.where(), ok=ok)
+        run.instance(rule, "%s: operator() of %s (mask %s)" % (unit, re.sub(r"yorel::yomm2::", "", cls), mask), f.where(), ok=ok)
         if not ok:
             run.violation(rule, "method::operator()|shape-mask=%s|repo" % mask, "table walk of %s (unit %s) is %s, documented walk is %s" % (cls[:160], unit, sym.show(got)[:300], sym.show(exp)[:300]), f.where())
     return n
